@@ -12,6 +12,7 @@ from vc.dsl import Bin, Const, Loc, Reg, Un
 RING = ["+", "-", "*", "&", "|", "^", "<<"]
 DIV = ["//", "%", ">>"]
 BIG = (1 << 40) + 7
+EDGE_CONSTANTS = [0x7fffffff, 0x80000000, -0x80000000, -0x80000001, 0xffffffff, 0x100000000]
 
 
 def regs():
@@ -51,6 +52,14 @@ def ring_programs(tier):
         for a in al:
             if not isinstance(a, Const):
                 out.append((Un("neg", a), d))
+    # constants at the edges of the 32-bit immediate range (an immediate is
+    # sign-extended by 64-bit instructions and 8-byte stores)
+    for d in dests(tier):
+        for c in EDGE_CONSTANTS:
+            out.append((Const(c), d))
+            for l in (Reg("r", 2), Loc("Q")):
+                for op in ("+", "&"):
+                    out.append((Bin(op, l, Const(c)), d))
     # depth 2: a fixed list of shapes over one operand per class
     r2, s3, w4, sw5 = regs()
     q, i, b = Loc("q"), Loc("i"), Loc("B")
